@@ -3,6 +3,7 @@
    indexes: [ms_wf], [u_wf], established by C18); proofs in Proofs/LogProofs.v. *)
 From Coq Require Import List NArith.
 From RaftV Require AppendRefine SliceRefine.
+From RaftV Require Import CursorProofs StreamProofs StreamEx.
 From RaftV Require Import Base Types Quorum Progress Tracker Storage Log Raft RawNode QuorumProofs RaftMono RaftRouting NodeProps PreVoteProofs LocalProofs FlowProofs LogProofs ConfProofs.
 Import ListNotations.
 Open Scope N_scope.
@@ -34,3 +35,70 @@ Theorem C08_handout_is_the_logical_log : forall st l allow es,
   forall k e, nth_error es k = Some e -> a_at (AppendRefine.lview st l) (l_applying l + 1 + N.of_nat k) = Some e.
 Proof. exact SliceRefine.l_next_committed_ents_view. Qed.
 Print Assumptions C08_handout_is_the_logical_log.
+
+
+(* ---- the stream over arbitrary histories of one node (Proofs/CursorProofs.v, StreamProofs.v) ---- *)
+
+(* inside raft.go: whatever message is stepped, of any type, term and content, the applying cursor
+   stays where it is or moves forward to the index the message acknowledges (MsgStorageApplyResp:
+   the last applied entry; MsgStorageAppendResp: the installed snapshot); no tick moves it *)
+Theorem C08_step_moves_cursor_only_by_acks : forall st r m r' e,
+  step st r m = Ok (r', e) -> cur_step (acks m) r r'.
+Proof. exact step_cur. Qed.
+Print Assumptions C08_step_moves_cursor_only_by_acks.
+
+Theorem C08_tick_keeps_cursor : forall st r r', tick st r = Ok r' -> no_move r r'.
+Proof. exact tick_cur. Qed.
+Print Assumptions C08_tick_keeps_cursor.
+
+(* every input of the RawNode API: a Ready hands out the consecutive entries right after the cursor
+   and moves the cursor to the last of them; Step moves it only to the acknowledgement it carries,
+   Advance only to one queued by the last Ready; nothing else moves it *)
+Theorem C08_cursor_discipline : forall n i d n' out rn,
+  n_rn n = Some rn -> rcur_ok rn -> same_incarnation i = true ->
+  (i = IReady -> ready_pre (n_st n) rn) ->
+  node_step n i d = Ok (n', out) ->
+  exists rn', n_rn n' = Some rn' /\ rcur_ok rn' /\ cursor_rel i out rn rn'.
+Proof. exact node_step_cursor. Qed.
+Print Assumptions C08_cursor_discipline.
+
+(* what the synchronous interface queues for Advance: the acknowledgement of the Ready's snapshot
+   and of its committed entries *)
+Theorem C08_advance_acks : forall st rn rd rn',
+  inv_rn rn -> accept_ready st rn rd = Ok rn' -> rn_async rn = false ->
+  forall i, pend rn' i ->
+    (exists s, rd_snapshot rd = Some s /\ i = s_index s) \/
+    (exists e, last_opt (rd_committed rd) = Some e /\ i = e_index e).
+Proof. exact accept_ready_pend. Qed.
+Print Assumptions C08_advance_acks.
+
+(* exactly-once and ordered, for every history of one incarnation: an entry handed out later has a
+   larger index than every entry handed out before *)
+Theorem C08_apply_stream_exactly_once : forall n tr1 x tr2 n',
+  nrun n (tr1 ++ x :: tr2) n' -> running_ok n ->
+  forall y, In y tr2 -> forall e1 e2, In e1 (batch_of x) -> In e2 (batch_of y) ->
+  e_index e1 < e_index e2.
+Proof. exact apply_stream_exactly_once. Qed.
+Print Assumptions C08_apply_stream_exactly_once.
+
+(* gap-free: the next batch starts right after the previous one unless an acknowledgement above the
+   cursor (an installed snapshot) was stepped in between *)
+Theorem C08_apply_stream_gap_free : forall n dx rdx mid ny dy rdy rest n',
+  nrun n ((n, IReady, dx, OReady rdx) :: mid ++ (ny, IReady, dy, OReady rdy) :: rest) n' ->
+  running_ok n -> Forall quiet mid ->
+  contig (ncursor n + nlen (rd_committed rdx) + 1) (rd_committed rdy).
+Proof. exact apply_stream_gap_free. Qed.
+Print Assumptions C08_apply_stream_gap_free.
+
+(* a new incarnation starts at the configured applied index (or the storage's snapshot) *)
+Theorem C08_restart_cursor : forall st c d rn,
+  new_rawnode st c d = Ok rn ->
+  rcur_ok rn /\ ncur rn = N.max (ms_first_index st - 1) (cfg_applied c).
+Proof. exact new_rawnode_cursor. Qed.
+Print Assumptions C08_restart_cursor.
+
+(* the hypotheses are satisfiable: a concrete history with two non-empty batches *)
+Theorem C08_stream_nonvacuous :
+  exists n tr n', running_ok n /\ nrun n tr n' /\ batches_of (Ok (tr, n')) = [[2]; [3]].
+Proof. exact apply_stream_nonvacuous. Qed.
+Print Assumptions C08_stream_nonvacuous.
